@@ -222,7 +222,7 @@ func registerModels(P *Program) {
 		lo := smt.Pow2Big(start)
 		hi := new(big.Int).Add(lo, smt.Pow2Big(length))
 		e := ex.freshInt("prime", lo, hi)
-		ex.assume(isPrime(e))
+		ex.assumePrime(e)
 		ex.draws = append(ex.draws, e)
 		return Tuple{ex.newBig(BigVal{I: e, Factors: []*smt.Term{e}, Tag: e.Name}), Iface{}}, true
 	}
@@ -726,7 +726,7 @@ func (ex *Exec) primExt(fn *ssa.Function, args []Value) (Value, bool) {
 		return ex.fsGet(ex.str(args[0])).Exists, true
 	case "vpxPrimeNear":
 		b := ex.argBig(args[0], "vpxPrimeNear")
-		ex.assume(isPrime(b.I))
+		ex.assumePrime(b.I)
 		return ex.newBig(BigVal{I: b.I, Factors: []*smt.Term{b.I}}), true
 	case "vpxCorrupt":
 		sl := args[0].(Slice)
